@@ -265,7 +265,10 @@ Section NS.
   Hypothesis Hms : namespace_members o doc t = Ok ms.
 
   Let c := make_ctx o doc t.
-  Let E := ns_env ms.
+  (** any environment whose local names are those of the namespace (e.g. [ns_env ms] itself, or the
+      environment C09 reads the Variables type in) *)
+  Variable E : tsenv.
+  Hypothesis Henv : forall n, env_var E n = env_var (ns_env ms) n.
   Notation ht := (has_type_b E).
   Notation lname := (local_name (c_bag c)).
 
@@ -324,7 +327,7 @@ Section NS.
   Lemma env_lookup td m : In td (typedefs doc) -> type_member c td = Ok (Some m) ->
     env_var E (lname (tname td)) = Some (body_type (m_body m)).
   Proof.
-    intros Hin Hm. unfold E, ns_env. cbn [env_var].
+    intros Hin Hm. rewrite Henv. unfold ns_env. cbn [env_var].
     destruct (member_of td Hin) as (mo & Hmo & Hinm). rewrite Hm in Hmo. inversion Hmo; subst mo.
     rewrite (find_some_unique _ _ m); [reflexivity|apply Hinm; reflexivity| |].
     - destruct (member_names td m Hm) as [-> _]. apply str_eqb_refl.
